@@ -1,4 +1,4 @@
-CONSTANTS Lvl <- DefaultLvl MaxOps = 10 MaxDepth = 3 MaxTotal = 10
+CONSTANTS Lvl <- DefaultLvl MaxOps = 10 MaxDepth = 3 Reps <- AllOps MaxTotal = 10
 INIT Init
 NEXT Next
 CHECK_DEADLOCK FALSE
